@@ -2,9 +2,14 @@
 package main
 
 import (
+	"encoding/json"
 	"fmt"
 	"os"
+	"path/filepath"
 	"sort"
+
+	"verif/harness/plugin"
+	"verif/harness/schema"
 
 	"verif/harness/checks"
 	"verif/harness/core"
@@ -23,6 +28,14 @@ func main() {
 	id := os.Args[1]
 	if id == "pin" {
 		if err := checks.WritePinned(); err != nil {
+			fmt.Fprintln(os.Stderr, err)
+			os.Exit(core.ExitInfra)
+		}
+		return
+	}
+	if id == "dump" && len(os.Args) >= 4 {
+		// verif dump <replay.json> <outdir> [param]: writes what the five plugins emit for the replay's schema
+		if err := dump(os.Args[2], os.Args[3], append(os.Args[4:], "")[0]); err != nil {
 			fmt.Fprintln(os.Stderr, err)
 			os.Exit(core.ExitInfra)
 		}
@@ -81,4 +94,40 @@ func main() {
 		return c.Finish()
 	}()
 	os.Exit(code)
+}
+
+func dump(replay, outdir, param string) error {
+	b, err := os.ReadFile(replay)
+	if err != nil {
+		return err
+	}
+	var doc struct {
+		Schema *schema.Schema `json:"schema"`
+	}
+	if err := json.Unmarshal(b, &doc); err != nil || doc.Schema == nil {
+		return fmt.Errorf("no schema in %s: %v", replay, err)
+	}
+	c, err := core.NewCtx("C13", "quick")
+	if err != nil {
+		return err
+	}
+	defer c.Close()
+	req, err := schema.Request(param, doc.Schema)
+	if err != nil {
+		return err
+	}
+	for _, name := range plugin.All {
+		r := c.Plugins.Run(name, req, plugin.Opts{})
+		if e := r.Err(); e != "" {
+			fmt.Printf("%s: %s\n", name, e)
+		}
+		for fn, content := range r.Files() {
+			path := filepath.Join(outdir, name, fn)
+			_ = os.MkdirAll(filepath.Dir(path), 0o755)
+			if err := os.WriteFile(path, []byte(content), 0o644); err != nil {
+				return err
+			}
+		}
+	}
+	return nil
 }
